@@ -389,6 +389,17 @@ def numeric_option_tests(prog: Program):
                     elif isinstance(y, ast.BoolOp):
                         stack.extend(y.values)
                     elif isinstance(y, ast.Name) and y.id in numeric and y.id not in rebound:
+                        # `conv(p) if p else 0` gives 0 for p = 0 either way: harmless
+                        if isinstance(x, ast.IfExp) and x.test is y \
+                                and isinstance(x.orelse, ast.Constant) \
+                                and isinstance(x.orelse.value, (int, float)) \
+                                and not isinstance(x.orelse.value, bool) and x.orelse.value == 0:
+                            b = x.body
+                            while isinstance(b, ast.Call) and isinstance(b.func, ast.Name) \
+                                    and b.func.id in ("int", "float", "complex") and len(b.args) == 1:
+                                b = b.args[0]
+                            if isinstance(b, ast.Name) and b.id == y.id:
+                                continue
                         out.append((u, x, y.id))
     return out
 
